@@ -25,3 +25,9 @@ M("fdb-override-at-call", "scalar_function.py", "fun_wrapped, self.x, f0=self.f,
 M("fdb-factory-drops", "scalar_function.py", "        fun, x0, args, grad, finite_diff_rel_step, bounds, epsilon=epsilon\n", "        fun, x0, args, grad, finite_diff_rel_step, (-np.inf, np.inf), epsilon=epsilon\n", ["FDB"])
 M("modes-cs-removed", "scalar_function.py", "FD_METHODS = (\"2-point\", \"3-point\", \"cs\")\n", "FD_METHODS = (\"2-point\", \"3-point\")\n", ["MODES"], canary=True)
 M("modes-none-unhandled", "scalar_function.py", "    elif jac is None:\n", "    elif jac is False:\n", ["MODES"])
+
+# ---- FDB option entries (round 2)
+M("fdb-abs-step-from-start", "scalar_function.py",
+  "            finite_diff_options[\"abs_step\"] = epsilon\n",
+  "            finite_diff_options[\"abs_step\"] = epsilon if finite_diff_rel_step is None else finite_diff_rel_step * np.maximum(1.0, np.abs(self.x))\n", ["FDB"])
+M("fdb-method-const", "scalar_function.py", "            finite_diff_options[\"method\"] = grad\n", "            finite_diff_options[\"method\"] = \"2-point\"\n", ["FDB"])
